@@ -227,6 +227,8 @@ func cmdBPF(args []string) int {
 	maxPaths := fs.Int("maxpaths", 0, "")
 	verbose := fs.Bool("v", false, "print all witness values")
 	listOnly := fs.Bool("list", false, "only parse and list functions, maps and entry points")
+	check := fs.Bool("check", false, "self-check: replay every finished path concretely from its model (no if-conversion) and compare verdict, packet and maps")
+	ifconv := fs.String("ifconv", "", "if-conversion mode: pure (default) | full | off")
 	fs.Parse(args)
 	if *prog == "" {
 		fmt.Fprintln(os.Stderr, "usage: bngsym bpf -prog antispoof [-entry antispoof_ingress -kind tc] -L 64 [-maps symbolic|empty]")
@@ -289,12 +291,8 @@ func cmdBPF(args []string) int {
 	for _, ep := range eps {
 		verdicts := map[uint64]int{}
 		events, merged := 0, 0
-		er := explore(cfg, *workers, *prog+":"+ep[0], func(in *Interp) interface{} {
-			pkt := in.NewSymbolicPacket("pkt", *L)
-			if *minL > 0 {
-				in.assume(in.tc.Cmp(OpULe, in.tc.Const(uint64(*minL), 64), pkt.Len))
-			}
-			env := &LLEnv{Packet: pkt, Maps: in.BPFMaps(*prog, onMiss)}
+		mkEnv := func(in *Interp, pkt *LLObj) *LLEnv {
+			env := &LLEnv{Packet: pkt, Maps: in.BPFMaps(*prog, onMiss), IfConversion: *ifconv}
 			for _, m := range env.Maps {
 				m.MaxSymbolic = *maxHits
 			}
@@ -311,8 +309,21 @@ func cmdBPF(args []string) int {
 					}
 				}
 			}
+			return env
+		}
+		er := explore(cfg, *workers, *prog+":"+ep[0], func(in *Interp) interface{} {
+			pkt := in.NewSymbolicPacket("pkt", *L)
+			if *minL > 0 {
+				in.assume(in.tc.Cmp(OpULe, in.tc.Const(uint64(*minL), 64), pkt.Len))
+			}
+			env := mkEnv(in, pkt)
 			run, _ := in.RunBPF(*prog, ep[0], ep[1], env)
 			v := in.concretize(run.Verdict, "verdict")
+			if *check {
+				if msg := replayCheck(in, &cfg, *prog, ep, *L, run, v, mkEnv); msg != "" {
+					in.reportC("selfcheck", msg, "bpf/"+*prog+".c:"+ep[0])
+				}
+			}
 			return &bpfPathOut{verdict: v, events: len(env.Events), merged: run.Merged}
 		}, func(out interface{}, res *PathResult, in *Interp) {
 			if o, ok := out.(*bpfPathOut); ok && o != nil {
@@ -340,6 +351,105 @@ func cmdBPF(args []string) int {
 		}
 	}
 	return rc
+}
+
+// replayCheck re-executes the finished path concretely on the inputs of its model (packet, map contents, clock,
+// choices; taken from the witness in creation order) without if-conversion, and compares the results with the
+// symbolic ones evaluated under the model. Returns "" when they agree.
+func replayCheck(in *Interp, cfg *Config, prog string, ep [2]string, L int, run *BPFRun, verdict uint64, mkEnv func(*Interp, *LLObj) *LLEnv) (msg string) {
+	in.ensureModel()
+	model := in.path.model
+	wit := in.witness(model)
+	if len(wit) < L+1 || wit[0].Tag != "pkt.len" {
+		return "replay: unexpected witness layout"
+	}
+	plen := int(wit[0].V)
+	data := make([]byte, L)
+	for i := 0; i < L; i++ {
+		data[i] = byte(wit[1+i].V)
+	}
+	in2 := newBareInterp(nil, cfg, "replay")
+	in2.path = &PathState{reached: map[string]bool{}}
+	var run2 *BPFRun
+	func() {
+		defer func() {
+			if rec := recover(); rec != nil {
+				switch e := rec.(type) {
+				case pathEnd:
+					msg = "replay ended: " + e.Msg
+				default:
+					msg = fmt.Sprintf("replay engine error: %v", rec)
+				}
+			}
+		}()
+		pkt := in2.NewConcretePacket("pkt", data[:plen], L)
+		for j := plen; j < L; j++ {
+			pkt.Bytes[j] = in2.tc.Const(uint64(data[j]), 8)
+		}
+		env := mkEnv(in2, pkt)
+		env.IfConversion = "off"
+		env.Replay = &LLReplay{Vals: wit[L+1:]}
+		run2, _ = in2.RunBPF(prog, ep[0], ep[1], env)
+	}()
+	if msg != "" {
+		return msg
+	}
+	ev := func(t *Term) (uint64, bool) { return Eval(t, model, map[*Term]uint64{}) }
+	if !run2.Verdict.IsConst() || run2.Verdict.V != verdict {
+		return fmt.Sprintf("replay verdict %v differs from symbolic verdict %d", run2.Verdict.V, int32(verdict))
+	}
+	l1, _ := ev(run.Packet.Len)
+	if !run2.Packet.Len.IsConst() || run2.Packet.Len.V != l1 {
+		return fmt.Sprintf("replay packet length %d differs from symbolic %d", run2.Packet.Len.V, l1)
+	}
+	for i := 0; i < int(l1); i++ {
+		b1, ok := ev(run.Packet.Bytes[i])
+		b2 := run2.Packet.Bytes[i]
+		if !ok || !b2.IsConst() || b1 != b2.V {
+			return fmt.Sprintf("replay packet byte %d is %v, symbolic run has %d under the model", i, b2.V, b1)
+		}
+	}
+	for _, mn := range sortedMapNames(run.Env.Maps) {
+		m1, m2 := run.Env.Maps[mn], run2.Env.Maps[mn]
+		if len(m1.Entries) != len(m2.Entries) {
+			return fmt.Sprintf("replay: map %s has %d entries, symbolic run %d", mn, len(m2.Entries), len(m1.Entries))
+		}
+		for i, e1 := range m1.Entries {
+			e2 := m2.Entries[i]
+			if e1.Deleted != e2.Deleted {
+				return fmt.Sprintf("replay: map %s entry %d liveness differs", mn, i)
+			}
+			if e1.Deleted {
+				continue
+			}
+			for j := range e1.Val.Bytes {
+				t1, t2 := e1.Val.Bytes[j], e2.Val.Bytes[j]
+				if t1 == nil && t2 == nil {
+					continue
+				}
+				if t1 == nil || t2 == nil || t1 == llPtrByte || t2 == llPtrByte {
+					return fmt.Sprintf("replay: map %s entry %d byte %d: unmaterialised/pointer byte mismatch", mn, i, j)
+				}
+				b1, ok := ev(t1)
+				if !ok || !t2.IsConst() || b1 != t2.V {
+					return fmt.Sprintf("replay: map %s entry %d value byte %d is %v, symbolic run has %d under the model", mn, i, j, t2.V, b1)
+				}
+			}
+		}
+	}
+	if len(run.Env.Events) != len(run2.Env.Events) {
+		return "replay: number of emitted events differs"
+	}
+	for i, e1 := range run.Env.Events {
+		e2 := run2.Env.Events[i]
+		for j := range e1.Data {
+			b1, ok := ev(e1.Data[j])
+			if !ok || !e2.Data[j].IsConst() || b1 != e2.Data[j].V {
+				return fmt.Sprintf("replay: event %d byte %d differs", i, j)
+			}
+		}
+	}
+	return ""
 }
 
 func verdictName(kind string, v uint64) string {
